@@ -6,7 +6,7 @@ import Wayfind.Proofs.Registry6
 If a reachable router `r2` holds all routes of a reachable router `r1` and every additional route does not fit `path`,
 the result for `path` is the same on both: adding (read backwards: removing) templates that do not fit a path cannot
 change how it is routed. A path the added routes do fit is matched afterwards (C02).
-Status: the insert half is proved on live templates (pairwise different expansions); the delete half follows from
+Status: the insert half is proved on live templates for every history; the delete half follows from
 `C06_non_interference` and the registry's delete step (`Reg.delete`), stated on stored routes. -/
 
 theorem C06_non_interference (env : Env) (r1 r2 : Router) (h1 : Reachable r1) (h2 : Reachable r2) (path : Bytes)
@@ -18,13 +18,13 @@ theorem C06_non_interference (env : Env) (r1 r2 : Router) (h1 : Reachable r1) (h
 
 /-- **insert is local**: a successful `insert t` changes the result only for paths some expansion of `t` fits … -/
 theorem C06_insert_changes_only_fitting_paths (env : Env) (r r' : Router) (L : List LiveT) (h : Live r L) (t : Bytes) (d : Nat)
-    (hi : r.insert t d = .ok r') (ts : List (Bytes × List Part)) (hp : parseTemplates t = .ok ts) (hd : DistinctExps ts)
+    (hi : r.insert t d = .ok r') (ts : List (Bytes × List Part)) (hp : parseTemplates t = .ok ts)
     (path : Bytes) (hnofit : ¬ ∃ e ∈ ts, ∃ vs, Fits env e.2 path vs) :
     r'.search env path = r.search env path :=
-  insert_local env h hi ts hp hd path hnofit
+  insert_local env h hi ts hp path hnofit
 
 /-- … and every such path is matched afterwards -/
 theorem C06_inserted_template_is_routed (env : Env) (r r' : Router) (L : List LiveT) (h : Live r L) (t : Bytes) (d : Nat)
-    (hi : r.insert t d = .ok r') (ts : List (Bytes × List Part)) (hp : parseTemplates t = .ok ts) (hd : DistinctExps ts)
+    (hi : r.insert t d = .ok r') (ts : List (Bytes × List Part)) (hp : parseTemplates t = .ok ts)
     (path : Bytes) (hfit : ∃ e ∈ ts, ∃ vs, Fits env e.2 path vs) : (r'.search env path).isSome = true :=
-  insert_routes env h hi ts hp hd path hfit
+  insert_routes env h hi ts hp path hfit
